@@ -281,6 +281,10 @@ func c14Gen(r *Rng, tier string, emit func(string)) {
 	for i := 0; i < n; i++ {
 		nid := 1 + r.Intn(9)
 		fam := r.Intn(4) // 0 DAG, 1 cyclic, 2 self loops + cycles, 3 chains
+		shift := 0
+		if r.Chance(10) {
+			shift = -1 // ids 0..nid-1: relation id 0 is an id like any other
+		}
 		var hs []string
 		for id := 1; id <= nid; id++ {
 			if r.Chance(12) {
@@ -315,16 +319,16 @@ func c14Gen(r *Rng, tier string, emit func(string)) {
 					}
 					switch r.Intn(8) {
 					case 0:
-						ms = append(ms, "n"+strconv.Itoa(m))
+						ms = append(ms, "n"+strconv.Itoa(m+shift))
 					case 1:
-						ms = append(ms, "w"+strconv.Itoa(m))
+						ms = append(ms, "w"+strconv.Itoa(m+shift))
 					default:
-						ms = append(ms, strconv.Itoa(m))
+						ms = append(ms, strconv.Itoa(m+shift))
 					}
 				}
 				vs = append(vs, strings.Join(ms, "."))
 			}
-			hs = append(hs, fmt.Sprintf("%d=%s", id, strings.Join(vs, "|")))
+			hs = append(hs, fmt.Sprintf("%d=%s", id+shift, strings.Join(vs, "|")))
 		}
 		// shuffle history tokens (map iteration independence), request list with repeats
 		p := r.Perm(len(hs))
@@ -335,7 +339,7 @@ func c14Gen(r *Rng, tier string, emit func(string)) {
 		nr := 1 + r.Intn(nid+2)
 		var req []string
 		for j := 0; j < nr; j++ {
-			req = append(req, strconv.Itoa(1+r.Intn(nid+1)))
+			req = append(req, strconv.Itoa(1+r.Intn(nid+1)+shift))
 		}
 		ids := strings.Join(req, ",")
 		emit("order " + ids + " H " + strings.Join(sh, " "))
